@@ -14,11 +14,19 @@ Proof.
   destruct budget as [b|]; [destruct (b <=? _); [reflexivity|]|]; apply IH.
 Qed.
 
+Lemma scan_src_gave_up_true r budget cs : forall tried, scan_src_gave_up true r budget tried cs = scan_gave_up r budget tried cs.
+Proof.
+  induction cs as [|c cs IH]; intros tried; cbn [scan_src_gave_up scan_gave_up]; [reflexivity|].
+  rewrite andb_false_r.
+  destruct (creadable c && String.eqb (norm (cname c)) (norm (safe_name (rname r)))); [reflexivity|].
+  destruct budget as [b|]; [destruct (b <=? _); [reflexivity|]|]; apply IH.
+Qed.
+
 Lemma get_dist_src_true u ap r budget : get_dist_src true u ap r budget = get_dist u ap r budget.
 Proof.
-  unfold get_dist_src, get_dist, one_pass_src, one_pass.
+  unfold get_dist_src, get_dist, one_pass_src, one_pass, one_pass_src_gave_up, one_pass_gave_up.
   destruct (match slookup _ u with Some l => l | None => [] end); [reflexivity|].
-  rewrite !scan_src_true. reflexivity.
+  rewrite !scan_src_true, scan_src_gave_up_true. reflexivity.
 Qed.
 
 Lemma get_dist_stack_src_true rs r budget : get_dist_stack_src true rs r budget = get_dist_stack rs r budget.
@@ -58,7 +66,7 @@ Proof.
     exists c. repeat split; assumption. }
   destruct (one_pass_src allow (offered u r) r ap budget) as [d'|] eqn:E1.
   - injection H as <-. destruct (Hp _ _ E1) as [c Hc]. exists c, ap. exact Hc.
-  - destruct ((forallb (fun c => is_prerelease (cand_version c)) (offered u r) || req_has_prerelease r) && negb ap); [|discriminate].
+  - match type of H with (if ?b then _ else _) = _ => destruct b; [|discriminate] end.
     destruct (Hp _ _ H) as [c Hc]. exists c, true. exact Hc.
 Qed.
 
